@@ -50,6 +50,14 @@ Theorem C48_fast_path_no_holes : forall s,
   keep_mapped (items s) (head s) (drop (head s) (order s)) = drop (head s) (order s).
 Proof. exact fast_path_no_holes. Qed.
 
+(* the slow path as written in Go (kept slots are written into the prefix of the same slice while the
+   loop still reads ahead) computes the functional filter used in the model: maybeCompact only runs it
+   with head > 0, so a slot is never overwritten before it is read *)
+Theorem C48_slow_path_in_place : forall s,
+  (0 < head s)%nat ->
+  slow_inplace s = keep_mapped (items s) (head s) (drop (head s) (order s)).
+Proof. exact slow_inplace_keep_mapped. Qed.
+
 (* ActiveLen returns the number of keys that are live according to the specification *)
 Theorem C48_active_len_counts_live : forall ttl h lo now,
   mono lo h -> last_time lo h <= now ->
@@ -69,5 +77,6 @@ Print Assumptions C48_simulation_preserved.
 Print Assumptions C48_evict_never_loses_live.
 Print Assumptions C48_compact_preserves_content.
 Print Assumptions C48_fast_path_no_holes.
+Print Assumptions C48_slow_path_in_place.
 Print Assumptions C48_active_len_counts_live.
 Print Assumptions C48_backward_clock_revives.
